@@ -682,9 +682,9 @@ func ruleAtomicCounter(c *chk.Ctx, owner string, counter *types.Var) {
 		var idLoad ssa.Instruction
 		ir.Instrs(f, func(ins ssa.Instruction) {
 			call, ok := ins.(*ssa.Call)
-			if ok && ir.IsCallTo(&call.Call, "strconv.FormatInt") && chk.LoadsField(call.Call.Args[0], counter) {
+			if ai := intFormatArg(call); ok && ai >= 0 && chk.LoadsField(call.Call.Args[ai], counter) {
 				fmtCall = call
-				idLoad = call.Call.Args[0].(ssa.Instruction)
+				idLoad = call.Call.Args[ai].(ssa.Instruction)
 			}
 		})
 		if fmtCall == nil {
@@ -1043,6 +1043,16 @@ func ruleWatcherContextPairing(c *chk.Ctx) {
 					}
 				}
 			}
+			if !good {
+				// or: Response and context travel together as two fields of one value of an
+				// unexported struct type whose fields are only ever filled as a pair, from one
+				// context.WithCancel whose cancel function goes into that Response
+				if ok, w := pairedInStruct(c, mu.Value, watcher); ok {
+					good = true
+				} else if w != "" {
+					why = w
+				}
+			}
 			c.Check(good, "TOKEN.register", f, "watcher watches the entry's own context", watcher.Pos(), "Response i and context i come from the two results of one constructor call, appended in the same block, and are read at the same index when the watcher starts", "the context given to a pending entry's watcher is not provably the one created with that entry ("+why+"): a request could be completed by another request's context ending")
 		})
 	}
@@ -1051,4 +1061,114 @@ func ruleWatcherContextPairing(c *chk.Ctx) {
 func isSameInstr(v ssa.Value, ins ssa.Instruction) bool {
 	vi, ok := v.(ssa.Instruction)
 	return ok && vi == ins
+}
+
+
+// intFormatArg: call formats an integer in base 10 (strconv.FormatInt / AppendInt / Itoa);
+// returns the index of the number argument, or -1.
+func intFormatArg(call *ssa.Call) int {
+	if call == nil {
+		return -1
+	}
+	switch {
+	case ir.IsCallTo(&call.Call, "strconv.FormatInt") && len(call.Call.Args) == 2:
+		if k, ok := ir.ConstInt(call.Call.Args[1]); ok && k == 10 {
+			return 0
+		}
+	case ir.IsCallTo(&call.Call, "strconv.AppendInt") && len(call.Call.Args) == 3:
+		if k, ok := ir.ConstInt(call.Call.Args[2]); ok && k == 10 && ir.IsNilConst(call.Call.Args[0]) {
+			return 1
+		}
+	case ir.IsCallTo(&call.Call, "strconv.Itoa"):
+		return 0
+	}
+	return -1
+}
+
+
+// projection: v is field #idx of base (a struct value, or a local struct variable).
+func projection(v ssa.Value) (base ssa.Value, fv *types.Var, ok bool) {
+	v = ir.NormCell(v)
+	switch x := v.(type) {
+	case *ssa.Field:
+		if st, isSt := x.X.Type().Underlying().(*types.Struct); isSt && x.Field < st.NumFields() {
+			return ir.NormCell(x.X), st.Field(x.Field), true
+		}
+	case *ssa.UnOp:
+		if fa, isFA := x.X.(*ssa.FieldAddr); isFA && x.Op == token.MUL {
+			return fa.X, ir.FieldVar(fa), true
+		}
+	}
+	return nil, nil, false
+}
+
+// pairedInStruct: the Response registered (resp) and the context argument of
+// the watcher are two fields of one struct value, and those two fields are
+// only ever written together, with the context coming from a WithCancel call
+// whose cancel function is stored into that same Response.
+func pairedInStruct(c *chk.Ctx, resp ssa.Value, watcher *ssa.Go) (bool, string) {
+	rb, rf, ok1 := projection(resp)
+	if !ok1 {
+		return false, ""
+	}
+	var cb ssa.Value
+	var cf *types.Var
+	for _, a := range watcher.Call.Args {
+		if strings.HasSuffix(a.Type().String(), "context.Context") {
+			if b, f, ok := projection(a); ok {
+				cb, cf = b, f
+			}
+		}
+	}
+	if cf == nil || !(rb == cb || ir.SameValue(rb, cb)) {
+		return false, "the watcher's context and the registered Response are not two fields of one value"
+	}
+	// every write of the two fields: same base, same block, one WithCancel
+	cs, rs := c.P.FieldStores(cf), c.P.FieldStores(rf)
+	if len(cs) == 0 || len(cs) != len(rs) {
+		return false, "the context field and the Response field of the pair are not written together"
+	}
+	for _, st := range cs {
+		var mate *ssa.Store
+		for _, r := range rs {
+			if r.Block() == st.Block() && r.Addr.(*ssa.FieldAddr).X == st.Addr.(*ssa.FieldAddr).X {
+				mate = r
+			}
+		}
+		if mate == nil {
+			return false, "a context is stored into the pair without its Response"
+		}
+		e, ok := ir.NormCell(st.Val).(*ssa.Extract)
+		if !ok || e.Index != 0 {
+			return false, "the paired context is not the result of a context.WithCancel call"
+		}
+		call, ok := e.Tuple.(*ssa.Call)
+		if !ok || !ir.IsCallTo(&call.Call, "context.WithCancel", "context.WithTimeout", "context.WithDeadline") {
+			return false, "the paired context is not the result of a context.WithCancel call"
+		}
+		al, ok := ir.NormCell(mate.Val).(*ssa.Alloc)
+		if !ok {
+			return false, "the paired Response is not created together with the context"
+		}
+		tied := false
+		for _, ref := range *al.Referrers() {
+			if fa, ok := ref.(*ssa.FieldAddr); ok && ir.FieldVar(fa) == c.M.RCancel {
+				for _, r2 := range *fa.Referrers() {
+					if s2, ok := r2.(*ssa.Store); ok {
+						v := ir.NormCell(s2.Val)
+						if ct, isCT := v.(*ssa.ChangeType); isCT {
+							v = ir.NormCell(ct.X)
+						}
+						if ir.IsExtractOf(v, call, 1) {
+							tied = true
+						}
+					}
+				}
+			}
+		}
+		if !tied {
+			return false, "the cancel function of the paired context is not the one stored in the paired Response"
+		}
+	}
+	return true, ""
 }
